@@ -105,17 +105,21 @@ where
             | SecurityAlgorithm::RSASHA512 => {
                 let data = self.public_key().as_ref();
                 // The exponent length is encoded as 1 or 3 bytes.
-                let (exp_len, off) = if data[0] != 0 {
-                    (data[0] as usize, 1)
-                } else {
+                let (exp_len, off) = match *data {
                     // NOTE: Even though this is the extended encoding of the length,
                     // a user could choose to put a length less than 256 over here.
-                    let exp_len =
-                        u16::from_be_bytes(data[1..3].try_into().unwrap());
-                    (exp_len as usize, 3)
+                    [0, hi, lo, ..] => {
+                        (u16::from_be_bytes([hi, lo]) as usize, 3)
+                    }
+                    [0, ..] | [] => return Err(AlgorithmError::InvalidData),
+                    [len, ..] => (len as usize, 1),
                 };
-                let n = &data[off + exp_len..];
-                Ok(n.len() * 8 - n[0].leading_zeros() as usize)
+                // A key that ends before its modulus has no size.
+                let n = data
+                    .get(off + exp_len..)
+                    .ok_or(AlgorithmError::InvalidData)?;
+                let first = n.first().ok_or(AlgorithmError::InvalidData)?;
+                Ok(n.len() * 8 - first.leading_zeros() as usize)
             }
             SecurityAlgorithm::ECDSAP256SHA256
             | SecurityAlgorithm::ECDSAP384SHA384 => {
